@@ -456,8 +456,9 @@ type Scenario struct {
 	Templates        []Template
 	Alpha            func(sc *Scenario, v *View) []Action // enabled actions except E and call (added by the engine)
 	Depth            int
-	MaxBlocks        int // bound on E actions (absolute: height < H0+MaxBlocks)
-	MaxMsgs          int // messages per block
+	MaxBlocks        int  // bound on E actions (absolute: height < H0+MaxBlocks)
+	MaxMsgs          int  // messages per block
+	Restart          bool // the chain may be restarted once from a zero-height export (between two blocks)
 }
 
 // Enabled lists the actions of a state in canonical order: E first (time passing is the default), then
@@ -467,6 +468,9 @@ func (sc *Scenario) Enabled(v *View) []Action {
 	s := v.S
 	if int(s.Height-H0) < sc.MaxBlocks {
 		out = append(out, actE())
+	}
+	if sc.Restart && s.Msgs == 0 && s.Used&restartBit == 0 && s.Height > H0 {
+		out = append(out, actRestart())
 	}
 	if s.Msgs >= sc.MaxMsgs {
 		return out
